@@ -47,6 +47,11 @@ MUST_CALL = [
 ]
 
 
+def hirq_features(f, node):
+    from rules import hirq
+    return hirq.features(f, node, hirq.lets(f))
+
+
 def run(db, tier):
     rep = Report("C09", tier, EXPLANATION, RULE)
     rep.rule("R-VISIT", "a visitor arm for a variant with AST children visits all of them, delegates to ast::walk_*, or rejects")
@@ -272,6 +277,29 @@ def run(db, tier):
                 hi = True
     rep.check(lo, "R-ARITY", "check_expr_call|min_args<=len", f.loc, "min_args <= args.len() is tested", "no `min_args() <= args.len()` comparison")
     rep.check(hi, "R-ARITY", "check_expr_call|len<=max_args", f.loc, "args.len() <= max_args is tested", "no `args.len() <= max_args()` comparison")
+    # ---------------- const declarations: initializer type == declared type
+    rep.rule("R-DECL-TY", "every declaration form compares the initializer's type with the declared type: locals in check_single_var_decl "
+                          "(R-MUSTCALL), `const T x = e;` items in the visitor's own ConstVar arm")
+    vi = db.fn(TC_VISITOR + "visit_item")
+    rep.fn(vi)
+    cv_arm = None
+    for n in hir_walk(vi.hir):
+        if n.get("k") == "Match" and n.get("src") == "Normal":
+            for arm in n["arms"]:
+                if any(x and "ast::Item::ConstVar" in x for x in arms.pat_sig(arm["p"])):
+                    cv_arm = arm
+    if cv_arm is None:
+        rep.bad("R-DECL-TY", "visit_item|ConstVar", vi.loc, "`const T x = e;` is only walked generically: nothing compares the type of e with T "
+                "(e.g. `const int X = 1.5;` is accepted and a later pass panics on the mismatch)")
+    else:
+        fe = hirq_features(vi, cv_arm["b"])
+        reach = db.reachable([c for t_, c in fe if t_ == "call" and c in db.fns]) | set(c for t_, c in fe if t_ == "call")
+        ok_cmp = any(c.endswith("::_require_exact") or c.endswith("::_require_exact_expr") for c in reach)
+        ok_chk = any(c.endswith("::check_expr") or c.endswith("::check_expr_as_value") for c in reach)
+        rep.check(ok_cmp and ok_chk, "R-DECL-TY", "visit_item|ConstVar", "%s:%d" % (vi.file, cv_arm["ln"]),
+                  "the initializer is type-checked and compared with the declared type",
+                  "the ConstVar arm does not both check the initializer and compare its type with the declared type (check: %s, compare: %s)" % (ok_chk, ok_cmp))
+
     # ---------------- sigils only on numeric variables
     from rules import hirq
     rep.rule("R-SIGIL", "a sigil on a variable whose INHERENT type is string is an error")
